@@ -17,3 +17,14 @@ func (o *ObjVal) Put(field string, val *Val) bool {
 	o.V[i] = val
 	return true
 }
+
+// Load returns field `name`. idx is its position in the *static* object type and is only a hint:
+// equal object types may list their fields in a different order than the value's own type.
+func (o *ObjVal) Load(idx int, name string) *Val {
+	fs := o.Type.Obj().Fields
+	if idx >= 0 && idx < len(fs) && fs[idx].Name == name {
+		return o.V[idx]
+	}
+	v, _ := o.Get(name)
+	return v
+}
